@@ -36,12 +36,15 @@ type Config struct {
 	MaxViolations int
 	Witnesses     int
 	WitnessEvery  int64
+	MaxCache      int
+	SliceOnly     bool
+	DumpPaths     string
 }
 
 func defaultConfig() Config {
 	return Config{MaxInstr: 3_000_000, MaxDecisions: 20000, MaxDepth: 400, MaxAlloc: 1 << 20, MaxFork: 64, MaxSymIndex: 512,
 		MaxPaths: 5_000_000, MaxGoroutines: 8, MaxSchedSteps: 2000, Preempt: 2, Race: true, MapOrder: "two", Workers: 16,
-		QueryTimeoutMs: 20000, Params: map[string]int64{}, MaxViolations: 50, Witnesses: 12, WitnessEvery: 37}
+		QueryTimeoutMs: 20000, Params: map[string]int64{}, MaxViolations: 50, Witnesses: 12, WitnessEvery: 37, MaxCache: 3000000}
 }
 
 type Explorer struct {
@@ -81,12 +84,19 @@ type Explorer struct {
 	witnesses    []*Witness
 	engineErrs   []string
 
+	cacheSh [64]cacheShard
+	coreSh  [64]coreShard
+	poolSh  [64]poolShard
+
 	methodMu sync.Mutex
 	methodCache map[string]*ssa.Function
 	implCache   map[string]bool
 	totalQueries, qSat, qUnsat, qUnknown, fallbacks int64
 	solverDur time.Duration
 	initS float64
+	coreHits, poolHits int64
+	dumpF *os.File
+	cacheHits int64
 	witnessTick int64
 	valDur time.Duration
 }
@@ -113,6 +123,10 @@ type Worker struct {
 	nQueries  int64
 	fallbacks int64
 	fbDur     time.Duration
+	qcache    map[qkey]qres
+	missByRoots [64]int64
+	coreHits, poolHits int64
+	cacheHits int64
 	funcs     map[*ssa.Function]bool
 }
 
@@ -257,7 +271,7 @@ var defaultInitAllow = []string{"errors", "io", "unicode/utf8", "unicode/utf16",
 
 // newWorker creates a worker and runs the package initialisers concretely.
 func (ex *Explorer) newWorker(id int) (*Worker, error) {
-	w := &Worker{id: id, ex: ex, ctx: NewTermCtx(), zeroCache: map[types.Type][]Value{}, strConsts: map[string]Str{}, globals: map[*ssa.Global]*Obj{}, funcs: map[*ssa.Function]bool{}}
+	w := &Worker{id: id, ex: ex, ctx: NewTermCtx(), zeroCache: map[types.Type][]Value{}, strConsts: map[string]Str{}, globals: map[*ssa.Global]*Obj{}, funcs: map[*ssa.Function]bool{}, qcache: map[qkey]qres{}}
 	s, err := NewSolver(w.ctx, ex.cfg.QueryTimeoutMs)
 	if err != nil {
 		return nil, err
@@ -300,7 +314,8 @@ func describeSentinel(r *Run, x interface{}) string {
 }
 
 func (w *Worker) newRun(prefix []Dec) *Run {
-	r := &Run{w: w, prefix: prefix, pcSet: map[*Term]bool{}, covers: map[string]int{}, stubs: map[string]bool{}}
+	r := &Run{w: w, prefix: prefix, pcSet: map[*Term]bool{}, covers: map[string]int{}, stubs: map[string]bool{},
+		ufParent: map[int]int{}, groupConj: map[int][]*Term{}, groupVars: map[int][]int{}, groupValid: map[int]bool{}, model: NewModel()}
 	r.sched = newSched(r)
 	return r
 }
@@ -314,7 +329,6 @@ type runOutcome struct {
 func (w *Worker) execute(prefix []Dec) (r *Run, out runOutcome) {
 	r = w.newRun(prefix)
 	s := w.solver
-	s.Push()
 	defer func() {
 		x := recover()
 		// undo writes to pre-run objects
@@ -339,6 +353,7 @@ func (w *Worker) execute(prefix []Dec) (r *Run, out runOutcome) {
 		for s.depth > 0 {
 			s.Pop()
 		}
+		r.solverOpen, r.solverSynced = false, 0
 		switch x := x.(type) {
 		case nil:
 			out = runOutcome{"ok", ""}
@@ -356,20 +371,32 @@ func (w *Worker) execute(prefix []Dec) (r *Run, out runOutcome) {
 						out = runOutcome{"abort", "while reporting panic: " + describeSentinel(r, y)}
 					}
 				}()
-				s.Push()
-				for _, t := range r.pc {
-					s.Assert(t)
-				}
-				r.modelOK = false
 				r.violation("panic", "unrecovered panic: "+r.describePanic(x.v), "panic")
-				s.Pop()
 				out = runOutcome{"ok", "panic"}
 			}()
+			for s.depth > 0 {
+				s.Pop()
+			}
 		default:
 			panic(x)
 		}
 	}()
 	r.callSSA(nil, w.ex.harnessFn, nil, nil)
+	if os.Getenv("GOSYM_GROUPS") != "" && len(prefix) == 0 {
+		for _, root := range r.allRoots() {
+			fmt.Fprintf(os.Stderr, "group %d: vars=%d conj=%d\n", root, len(r.groupVars[root]), len(r.groupConj[root]))
+			for _, id := range r.groupVars[root] {
+				if v := w.ctx.varByID[id]; v != nil {
+					fmt.Fprintf(os.Stderr, "   %s\n", v.name)
+				}
+			}
+		}
+		for _, t := range r.pc {
+			if len(w.ctx.VarsOf(t)) > 1 {
+				fmt.Fprintf(os.Stderr, "  multi-var conj: %s\n", t.Deep(5))
+			}
+		}
+	}
 	if w.ex.wantWitness() && len(r.viols) == 0 && (r.sched == nil || len(r.sched.gs) == 1) {
 		r.makeWitness()
 	}
@@ -394,6 +421,9 @@ func (ex *Explorer) account(w *Worker, r *Run, out runOutcome) {
 	ex.mu.Lock()
 	defer ex.mu.Unlock()
 	ex.paths++
+	if ex.dumpF != nil {
+		fmt.Fprintf(ex.dumpF, "%s %s\n", out.kind, decsString(r.trace, 100000))
+	}
 	ex.decisions += int64(len(r.trace))
 	ex.instrs += r.nInstr
 	ex.asserts += int64(r.assertsTotal)
@@ -437,7 +467,12 @@ func (ex *Explorer) account(w *Worker, r *Run, out runOutcome) {
 	}
 	if out.kind == "ok" && len(ex.samples) < 5 && (ex.paths%7 == 1 || len(ex.samples) == 0) {
 		smp := map[string]interface{}{"decisions": decsString(r.trace, 60), "observed": r.obsStr}
-		if r.modelOK {
+		okm := r.fullModelSafe()
+		for w.solver.depth > 0 {
+			w.solver.Pop()
+		}
+		r.solverOpen, r.solverSynced = false, 0
+		if okm {
 			in := map[string]uint64{}
 			for _, i := range r.inputs {
 				v, _ := r.model.Eval(i.T)
@@ -520,6 +555,12 @@ func (ex *Explorer) Explore() error {
 		ex.solverDur += w.solver.dur
 		ex.valDur += w.solver.valDur
 		ex.fallbacks += w.fallbacks
+		ex.cacheHits += w.cacheHits
+		ex.coreHits += w.coreHits
+		ex.poolHits += w.poolHits
+		if os.Getenv("GOSYM_GROUPS") != "" {
+			fmt.Fprintf(os.Stderr, "worker %d: misses by #groups %v hits %d\n", w.id, w.missByRoots[:6], w.cacheHits)
+		}
 		for f := range w.funcs {
 			if f.Pkg != nil || f.Origin() != nil || f.Parent() != nil {
 				ex.funcs[f.String()] = true
@@ -537,4 +578,95 @@ func sortedKeys(m map[string]bool) []string {
 	}
 	sort.Strings(out)
 	return out
+}
+
+type cacheShard struct {
+	mu sync.Mutex
+	m  map[qkey]qres
+}
+
+func (ex *Explorer) cacheGet(k qkey) (qres, bool) {
+	sh := &ex.cacheSh[k.a&63]
+	sh.mu.Lock()
+	c, ok := sh.m[k]
+	sh.mu.Unlock()
+	return c, ok
+}
+
+func (ex *Explorer) cachePut(k qkey, v qres) {
+	sh := &ex.cacheSh[k.a&63]
+	sh.mu.Lock()
+	if sh.m == nil || len(sh.m) >= ex.cfg.MaxCache/64+1 {
+		sh.m = map[qkey]qres{}
+	}
+	sh.m[k] = v
+	sh.mu.Unlock()
+}
+
+type coreShard struct {
+	mu sync.Mutex
+	m  map[qkey][][][2]uint64
+}
+
+func (ex *Explorer) coresGet(k qkey) [][][2]uint64 {
+	sh := &ex.coreSh[k.a&63]
+	sh.mu.Lock()
+	c := sh.m[k]
+	sh.mu.Unlock()
+	return c
+}
+
+func (ex *Explorer) coresPut(k qkey, core [][2]uint64) {
+	sh := &ex.coreSh[k.a&63]
+	sh.mu.Lock()
+	if sh.m == nil || len(sh.m) > 200000 {
+		sh.m = map[qkey][][][2]uint64{}
+	}
+	l := sh.m[k]
+	if len(l) < 24 {
+		sh.m[k] = append(l, core)
+	}
+	sh.mu.Unlock()
+}
+
+type poolShard struct {
+	mu sync.Mutex
+	m  map[qkey][][]uint64
+}
+
+func varsKey(vars []int, c *TermCtx) qkey {
+	k := qkey{uint64(len(vars)) + 17, 99}
+	for _, v := range vars {
+		if t := c.varByID[v]; t != nil {
+			k.a = mix(k.a, t.h1)
+			k.b = mix(k.b, t.h2)
+		} else {
+			k.a = mix(k.a, uint64(int64(v)))
+		}
+	}
+	return k
+}
+
+func (ex *Explorer) poolGet(vars []int, c *TermCtx) [][]uint64 {
+	k := varsKey(vars, c)
+	sh := &ex.poolSh[k.a&63]
+	sh.mu.Lock()
+	l := append([][]uint64(nil), sh.m[k]...)
+	sh.mu.Unlock()
+	return l
+}
+
+func (ex *Explorer) poolPut(vars []int, c *TermCtx, vals []uint64) {
+	k := varsKey(vars, c)
+	sh := &ex.poolSh[k.a&63]
+	sh.mu.Lock()
+	if sh.m == nil || len(sh.m) > 100000 {
+		sh.m = map[qkey][][]uint64{}
+	}
+	l := sh.m[k]
+	if len(l) >= 12 {
+		l = l[1:]
+	}
+	sh.m[k] = append(l, vals)
+	sh.mu.Unlock()
 }
